@@ -35,8 +35,9 @@ Slots == 1..3
 NoObj == [st |-> "none"]
 RawObj == [st |-> "raw"]      \* allocated, content not known to the specification (failed / arbitrary decode)
 ZeroObj == [st |-> "zero"]    \* a structure after ASN_STRUCT_RESET: all zero
-Obj(v) == [st |-> "val", v |-> v, sess |-> TRUE]      \* holds the session's value
-ObjV(v) == [st |-> "val", v |-> v, sess |-> FALSE]    \* holds some other (possibly invalid) value
+Obj(v) == [st |-> "val", v |-> v, sess |-> TRUE, seen |-> FALSE]     \* holds the session's value
+ObjV(v) == [st |-> "val", v |-> v, sess |-> FALSE, seen |-> FALSE]   \* holds another (possibly invalid) value, built by the scenario
+ObjS(v) == [st |-> "val", v |-> v, sess |-> FALSE, seen |-> TRUE]    \* holds whatever a decoder of arbitrary octets reported (C04)
 NoWire == <<-1>>
 
 VARIABLES sc,      \* the session's scenario: [ty, val, plan]
@@ -100,8 +101,7 @@ Encode(op, obs) == /\ obj[op.slot].st = "val"
                    /\ UNCHANGED <<obj, dec>>
 \* decoding is the inverse of the encoder relation: the bytes in wire[syn] are an
 \* encoding of exactly one value (model-level invariant: injectivity), the session value
-Decode(op) == /\ wire[op.syn] # NoWire
-              /\ obj' = [obj EXCEPT ![op.slot] = Obj(sc.val)]
+Decode(op) == /\ obj' = [obj EXCEPT ![op.slot] = Obj(sc.val)]
               /\ UNCHANGED <<wire, dec>>
 \* The octets given to DecodeLit / StartDecode are, by construction of the scenario, a valid
 \* encoding of the session's value (generator: reference encoder or variant relation).
@@ -128,13 +128,14 @@ DecodeCall(op, consumed) ==
 \* obs: what the trace binds (logged octets of an opaque encoder, logged consumed count);
 \* the generator explores with the neutral observation GenObs
 GenObs == [bytes |-> OpaqueWire, consumed |-> 0, allocfailed |-> 0, rc |-> "FAIL", wf |-> FALSE, val |-> 0]
+Vouched(o) == o.st = "val" /\ (o.sess \/ (~o.seen /\ Valid(RawEnv, TypeOf(sc), o.v)))
 \* did an armed allocation failure fire inside this call?  (logged by the allocator wrapper)
 Fired(obs) == fault > 0 /\ obs.allocfailed > 0
 Lib(op) == op.a \in {"Encode", "EncodeCb", "EncodeBuf", "Decode", "DecodeLit", "DecodeAny", "DecodeInto", "DecodeCall",
                      "Free", "Reset", "Print", "Check", "Compare"}
 \* what a decode leaves in the slot when the specification cannot predict it: the logged value if
 \* the decoder said OK and the projection is well-formed, else an allocated structure of unknown content
-Observed(obs) == IF obs.rc = "OK" /\ obs.wf THEN ObjV(obs.val) ELSE RawObj
+Observed(obs) == IF obs.rc = "OK" /\ obs.wf THEN ObjS(obs.val) ELSE RawObj
 
 Step(obs) ==
   /\ pc <= Len(sc.plan)
@@ -157,7 +158,7 @@ Step(obs) ==
           [] op.a = "BuildZero" -> obj' = [obj EXCEPT ![op.slot] = RawObj] /\ UNCHANGED <<wire, dec>>
           [] op.a = "Arm" -> UNCHANGED <<obj, wire, dec>>
           [] op.a \in {"Check", "Print", "EncodeCb", "EncodeBuf"} -> obj[op.slot].st # "none" /\ UNCHANGED <<obj, wire, dec>>
-          [] op.a = "Encode" -> IF obj[op.slot].st = "val" /\ (obj[op.slot].sess \/ Valid(RawEnv, TypeOf(sc), obj[op.slot].v))
+          [] op.a = "Encode" -> IF Vouched(obj[op.slot])
                                 THEN Encode(op, obs.bytes)
                                 ELSE \* a structure the specification does not vouch for: the result is only logged
                                      /\ wire' = [wire EXCEPT ![op.syn] = IF obs.bytes = OpaqueWire THEN NoWire ELSE obs.bytes]
@@ -167,7 +168,8 @@ Step(obs) ==
           [] op.a = "DecodeInto" -> obj[op.slot].st = "zero" /\ DecodeLit(op)
           [] op.a = "StartDecode" -> StartDecode(op)
           [] op.a = "DecodeCall" -> DecodeCall(op, IF op.avail < Len(dec.enc) THEN obs.consumed ELSE op.avail - dec.pos)
-          [] op.a = "Decode" -> IF obj[1].st = "val" /\ ~obj[1].sess
+          [] op.a = "Decode" -> IF wire[op.syn] = NoWire THEN UNCHANGED <<obj, wire, dec>>      \* nothing was encoded: nothing to decode
+                                ELSE IF obj[1].st # "val" \/ ~obj[1].sess
                                 THEN \* re-decoding what an unvouched structure encoded to (C04 consistency)
                                      obj' = [obj EXCEPT ![op.slot] = Observed(obs)] /\ UNCHANGED <<wire, dec>>
                                 ELSE Decode(op)
@@ -182,7 +184,6 @@ Step(obs) ==
 SessVal(x) == SameValue(RawEnv, TypeOf(sc), x, sc.val)
 Has(ev, f) == f \in DOMAIN ev
 When(c, name) == IF c THEN {name} ELSE {}
-Vouched(o) == o.st = "val" /\ (o.sess \/ Valid(RawEnv, TypeOf(sc), o.v))
 EIO == 5
 \* after this Free, does the session own any structure?  (then the allocator must be balanced)
 AllGoneAfter(op) == /\ \A i \in Slots : i # op.slot => obj[i].st = "none"
@@ -234,6 +235,7 @@ StrictFaults(op, ev) ==
                          \cup When(Vouched(obj[op.slot]) /\ Canonical(op.syn) /\ ~ev.prefix, "buffer-not-a-prefix"))
     [] op.a = "Decode" ->
          IF wire[op.syn] = NoWire THEN {"no-wire"}
+         ELSE IF obj[1].st # "val" THEN {}      \* a structure of unknown content was re-encoded: nothing is promised
          ELSE IF ev.rc # "OK" THEN {"rc-not-ok"}
          ELSE When(ev.consumed # ev.size, "consumed-differs")
               \cup When(ev.size # Len(wire[op.syn]), "size-differs")
@@ -268,7 +270,7 @@ StrictFaults(op, ev) ==
          \* C08: 0 iff every constraint at every depth holds; on failure a bounded, terminated
          \* message naming a type, for every buffer size (runs: one entry per size tried)
          IF obj[op.slot].st = "none" THEN {"no-object"}
-         ELSE IF obj[op.slot].st # "val" THEN {}
+         ELSE IF obj[op.slot].st # "val" \/ obj[op.slot].seen THEN {}    \* C04: it only has to return
          ELSE LET ok == Valid(RawEnv, TypeOf(sc), obj[op.slot].v) IN
               When(ok /\ ev.ret # 0, "valid-rejected")
               \cup When(~ok /\ ev.ret = 0, "invalid-accepted")
